@@ -2851,3 +2851,7 @@ mod tests {
         }
     }
 }
+
+#[cfg(kani)]
+#[path = "/verif/kani/parquet/arrow/arrow_writer/levels.rs"]
+mod verif_kani;
